@@ -217,7 +217,43 @@ def h_system(ctx, tz1, tz2, start_iso):
             ctx.eq(occ[t], total[t], "shared job: patterns of two zones are combined on a common UTC line")
 
 
-HARNESSES = {"zone": h_zone, "system": h_system}
+def h_countries(ctx, start_iso="2025-03-29T18:00:00"):
+    """the ready-made countries (`efootprint.constants.countries.Countries`) carry a zone of that country (pytz's own
+    country table is the oracle), and a usage pattern built with them is placed with that zone's offsets"""
+    from efootprint.constants.countries import Countries
+    from efootprint.core.country import Country
+    by_name = {name.lower(): code for code, name in pytz.country_names.items()}
+    alias = {"united kingdom": "gb", "britain (uk)": "gb"}
+    start = datetime.fromisoformat(start_iso)
+    n = 0
+    for attr in sorted(dir(Countries)):
+        gen = getattr(Countries, attr)
+        if attr.startswith("_") or not callable(gen):
+            continue
+        try:
+            c = gen()
+        except Exception:
+            continue
+        if not isinstance(c, Country):
+            continue
+        n += 1
+        code = by_name.get(c.name.lower()) or alias.get(c.name.lower())
+        ctx.require(code is not None, f"Countries.{attr}: country '{c.name}' is known to the oracle table")
+        if code is None:
+            continue
+        zones = pytz.country_timezones.get(code.upper(), [])
+        ctx.require(c.timezone.value.zone in zones, f"Countries.{attr}: time zone is a zone of {c.name}",
+                    f"{c.timezone.value.zone} not in {zones}")
+        if len(zones) == 1:
+            from efootprint.builders.time_builders import create_source_hourly_values_from_list
+            hq = create_source_hourly_values_from_list([3, 1, 4], start_date=start)
+            conv = hq.convert_to_utc(local_timezone=c.timezone)
+            got = {V.utc_key(t).tz_localize(None).to_pydatetime(): v for t, v in zip(conv.value.index, conv.value["value"].values._data)}
+            check_placement(ctx, pytz.timezone(zones[0]), start, 3, [3, 1, 4], got, f"Countries.{attr} ({zones[0]})")
+    ctx.require(n >= 10, "the ready-made countries were enumerated", str(n))
+
+
+HARNESSES = {"zone": h_zone, "system": h_system, "countries": h_countries}
 QUICK_ZONES = ["Europe/Paris", "Europe/Berlin", "Europe/Helsinki", "Europe/Vienna", "Europe/Warsaw", "Europe/Oslo",
                "Europe/Budapest", "Europe/London", "Europe/Brussels", "Europe/Rome", "Europe/Bucharest",
                "Asia/Kuala_Lumpur", "Africa/Casablanca", "Africa/Tunis", "Africa/Algiers", "Africa/Dakar",
@@ -238,4 +274,6 @@ def plan(tier, seed):
                          ("America/New_York", "Asia/Kolkata", "2025-11-02T00:00:00"),
                          ("Europe/London", "Australia/Lord_Howe", "2025-10-05T00:00:00")):
         p.append(("system", dict(tz1=tz1, tz2=tz2, start_iso=st)))
+    p.append(("countries", dict(start_iso="2025-03-29T18:00:00")))
+    p.append(("countries", dict(start_iso="2025-10-25T20:00:00")))
     return p
